@@ -1171,10 +1171,10 @@ func runtimeTmpl(fw string) string {
 // tmpl area
 
 type tmplData struct {
-	A, B, ListenPort, CurrentPostConf     string
-	X, Y                                  bool
+	A, B, ListenPort, CurrentPostConf       string
+	X, Y                                    bool
 	CacheEnabled, ClientReporting, SetPort0 bool
-	hidden                                string
+	hidden                                  string
 }
 
 var tmplFieldsS = []string{"A", "B", "ListenPort", "CurrentPostConf"}
